@@ -207,6 +207,23 @@ CLAIMED = {
              "a str with tuples and never fires) -- not part of the property.",
         technique="Coq proof (list/filter reasoning, finite ASCII sweep lifted, arbitrary allow-lists as parameters) "
                   "+ translated tables + differential correspondence"),
+    "C12": dict(
+        category="proof",
+        text="Frame argument re-derived from the AST on every run: the set of attributes of HTMLParser, its 23 phase "
+             "objects and the TreeBuilder written while parsing, and the set re-initialised on entry of every parse; "
+             "theorem (vm_compute): every attribute written outside __init__ is re-initialised, except five with a "
+             "stated reason (two pure caches, one set-before-use, two derived by a property that reset assigns); the "
+             "tokenizer and stream are new objects per parse (translator fact). Theorem: the bounded handler caches are "
+             "observationally absent for EVERY lookup sequence, bound and consistent prior content, and stay bounded "
+             "(model tied to the real processStartTag/processEndTag through a recording subclass). PARTIAL: module-"
+             "level caches and threads are not proved; histories of 2-5 calls on ONE parser (strict aborts, sources "
+             "that raise, table text, pre, RCDATA, foreign content, fragments) are compared call by call with fresh "
+             "parsers; thorough adds a thread soak. One fix in /repo (the leak quoted in the property).",
+        design_ref="DESIGN.md 3 C12",
+        note="The frame argument is syntactic (no __setattr__, checked); per-parse objects (nodes, tokens) are outside "
+             "its scope by construction.",
+        technique="Coq proof over translator-extracted write/reset sets (vm_compute) + cache transparency proof "
+                  "(induction over lookup sequences) + differential histories shared-vs-fresh parser"),
 }
 
 PENDING_REASON = "not yet built in this round (planned: Coq model + theorems per DESIGN.md section 3); no check is registered, so nothing is claimed"
